@@ -900,8 +900,8 @@ def oracle_round5(chk, KL):
 
     # ---- (1) the package-level names are the functions of the module (what is checked through the module holds for every spelling)
     for name, f in sorted(vars(KL).items()):
-        if not (inspect.isfunction(f) and f.__module__ == KL.__name__):
-            continue
+        if not (inspect.isfunction(f) and f.__module__ == KL.__name__) or name.startswith("_"):
+            continue                      # private helpers are not exported by `from .karhunenLoeve import *`
         for api, A in APIS[1:]:
             chk.oracle_cases += 1
             chk.count("oracle:r5:alias")
